@@ -1,6 +1,7 @@
 """C21 -- grid connectivity queries agree with the signed cell-face incidence.
 
-Tier B (run-time contract sweep).  Every query is specified directly against the dense signed incidence
+Tier P : Grid.divergence(dim), dim = 1..3, on a stub whose cell-face matrix has symbolic shape and entries (case_divergence).
+Tier B (run-time contract sweep) for everything else.  Every query is specified directly against the dense signed incidence
 CF = cell_faces.toarray()  (faces x cells), A = (CF != 0), FN = face_nodes (nodes x faces):
 
   cell_faces_as_dense()      D[0,f] = the cell with CF[f,c] > 0, D[1,f] = the cell with CF[f,c] < 0, -1 where none
@@ -62,12 +63,15 @@ from pathlib import Path
 import numpy as np
 
 META = {
-    "level": "exploration",
-    "engine": "sweep",
-    "technique": "run-time contract sweep (bounded stand-in for deduction): every connectivity query of Grid compared with its "
+    "level": "other",
+    "engine": "pse",
+    "technique": "contract-based deductive verification of Grid.divergence (vector divergence = scalar divergence expanded per component, "
+                 "symbolic grid size and incidence entries, z3); run-time contract sweep (bounded stand-in) for the other queries: every connectivity query of Grid compared with its "
                  "definition on the dense signed cell-face incidence, over plain, fracture-split and extracted grids, and again along "
                  "call histories (query, in-place fracture propagation, query; copy, modify one, query the others)",
-    "text": "Bounded assurance only: all listed queries agree with the incidence on every enumerated grid (plain 1-3 cells per direction, "
+    "text": "Tier P: Grid.divergence(dim) for dim 1..3 on a cell-face matrix of symbolic shape and entries: shape, entry (c*dim+k, f*dim+l) = "
+            "cell_faces[f, c] iff k == l, csr format; dim 0 rejected (sps.kron with a concrete identity and transposition are the models used). "
+            "Everything else is bounded assurance only: all listed queries agree with the incidence on every enumerated grid (plain 1-3 cells per direction, "
             "all subdomains of structured and simplex fractured md-grids in 2-D/3-D, extracted subgrids), and they agree with the CURRENT "
             "incidence of the queried object along the enumerated histories: 15 fracture-propagation histories (1-3 in-place steps on "
             "Cartesian md-grids, 2-D and 3-D) with every subdomain and every earlier Grid.copy() of it re-queried after each step, and "
@@ -498,9 +502,65 @@ def _history_cases(pp, rng, quick):
         yield from _periodic_cases(pp, d, rng)
 
 
+def case_divergence(pp, d):
+    """Tier P: the real Grid.divergence on a stub holding a cell-face matrix of symbolic shape and entries."""
+    import z3
+    from engine.arrays import SymMat
+    from engine.sym import SymBool, iterm
+
+    def run(ctx):
+        nf, nc = ctx.int("nf"), ctx.int("nc")
+        ctx.assume(nf >= 1)
+        ctx.assume(nc >= 1)
+
+        class Stub:
+            pass
+
+        g = Stub()
+        g.cell_faces = SymMat.fresh("CF", nf, nc, "csc")
+        if d <= 0:
+            try:
+                pp.Grid.divergence(g, d)
+            except ValueError:
+                return "rejected"
+            ctx.prove("a non-positive dimension is rejected with ValueError", False)
+            return "ok"
+        D = pp.Grid.divergence(g, d)
+        i, j = ctx.int("i"), ctx.int("j")
+        ctx.assume((i >= 0) & (i < nc * d) & (j >= 0) & (j < nf * d))
+        dd = z3.IntVal(d)
+        ctx.prove("shape is (dim * num_cells, dim * num_faces)", SymBool(z3.And(iterm(D.shape[0]) == nc.t * d, iterm(D.shape[1]) == nf.t * d)))
+        want = z3.If(i.t % dd == j.t % dd, g.cell_faces._entry(j.t / dd, i.t / dd), z3.RealVal(0))
+        ctx.prove("entry (c*dim+k, f*dim+l) is cell_faces[f, c] for k == l and zero otherwise (the scalar divergence expanded per component)",
+                  SymBool(D._entry(i.t, j.t) == want))
+        ctx.prove("returned in csr format", D.getformat() == "csr")
+        if d > 1:
+            ctx.prove("CANARY: components are coupled", SymBool(D._entry(i.t, j.t) == g.cell_faces._entry(j.t / dd, i.t / dd)), expect_refuted=True)
+        return "ok"
+
+    return run
+
+
+def prove(rep, pp):
+    from engine import indexmodels, shims
+    from engine.harness import run_case
+    from porepy.grids import grid as gmod
+
+    refuted = []
+    with shims.shadow_builtins([gmod]), shims.numpy_shims(), indexmodels.index_shims():
+        for d in (0, 1, 2, 3):
+            rf, _ = run_case(rep, f"Grid.divergence(dim={d})", case_divergence(pp, d), allowed_exceptions=(ValueError,))
+            refuted += rf
+    rep.trust(*sorted(shims.USED_MODELS))
+    for name, ctx, r in refuted:
+        # the counter-model is over an abstract matrix; the sweep below evaluates the same clause on real grids and reports concrete inputs
+        rep.violation(name, "deductive", inputs=None, detail=f"z3 counter-model: {r['model']}"[:1500], confirmed=False, solver_output=str(r["model"]))
+
+
 def run(rep):
     import porepy as pp
 
+    prove(rep, pp)
     rep.under_contract("Grid.cell_faces_as_dense", "Grid.cell_connection_map", "Grid.get_all_boundary_faces", "Grid.get_boundary_faces",
                        "Grid.update_boundary_face_tag", "Grid.update_boundary_node_tag", "Grid.signs_and_cells_of_boundary_faces",
                        "Grid.cell_nodes", "Grid.num_cell_nodes", "Grid.divergence", "Grid.__init__ (boundary tags)", "tags.all_face_tags")
